@@ -119,8 +119,7 @@ type Interp struct {
 	floatToInt []*Term
 	curInstr string
 	harnessPkg *ssa.Package
-	crcData  SliceV
-	crcPoly  *Term
+	crcCalls []crcCall // checksum computations seen so far (C19)
 	realKeys bool
 	recTag   string
 	firstRecObj int
@@ -199,6 +198,39 @@ func (in *Interp) named(name string, s Sort) *Term {
 	}
 	in.vars = append(in.vars, v)
 	return v
+}
+
+// crcCall: one checksum computation (crc32.Checksum, or the first Write into a hash object after
+// Reset).  The checksum is an uninterpreted value per computation (unrelated values for different
+// computations; the harness refers to the latest computation over a given slice).
+type crcCall struct {
+	data SliceV
+	poly *Term
+	val  *Term
+}
+
+func (in *Interp) crcRecord(data SliceV, poly *Term) *Term {
+	name := "crc"
+	if len(in.crcCalls) > 0 {
+		name = fmt.Sprintf("crc_%d", len(in.crcCalls))
+	}
+	v := in.named(name, BVS(32))
+	in.crcCalls = append(in.crcCalls, crcCall{data, poly, v})
+	return v
+}
+
+// crcLookup: the latest checksum computation over a slice that starts where b starts.
+func (in *Interp) crcLookup(b SliceV) *crcCall {
+	if len(b.arr.alts) != 1 {
+		return nil
+	}
+	for i := len(in.crcCalls) - 1; i >= 0; i-- {
+		c := &in.crcCalls[i]
+		if len(c.data.arr.alts) == 1 && c.data.arr.alts[0].obj == b.arr.alts[0].obj && c.data.off == b.off {
+			return c
+		}
+	}
+	return nil
 }
 
 func (in *Interp) opaqueType(tag string) types.Type {
@@ -1866,11 +1898,15 @@ func (a *Act) invokeAlt(al IfaceAlt, method *types.Func, args []Value) Value {
 		case "Write":
 			sl := args[0].(SliceV)
 			first := Eq(n, BV(8, 0))
+			var crcv *Term
 			if !(first.IsConst() && first.val == 0) {
-				in.crcData, in.crcPoly = sl, poly
+				crcv = in.crcRecord(sl, poly)
 			}
 			in.events = append(in.events, fmt.Sprintf("crc32 hash Write(data=obj%d off=%d)", sl.arr.alts[0].obj, sl.off))
-			nsum := Ite(first, in.named("crc", BVS(32)), in.fresh("crcmixed", BVS(32)))
+			if crcv == nil {
+				crcv = in.fresh("crcmixed", BVS(32))
+			}
+			nsum := Ite(first, crcv, in.fresh("crcmixed", BVS(32)))
 			a.st.heap[id] = nv(Value(StructV{f: []Value{poly, BvBin("bvadd", n, BV(8, 1)), nsum}}))
 			return TupleV{sl.len, nilIface()}
 		case "Sum32":
